@@ -79,8 +79,8 @@ func monC05Sim(c *Case, tr *Trace) []Violation {
 		if sn.Phase != "drain1" && sn.Phase != "drain2" && sn.Phase != "idle" {
 			continue
 		}
-		if sn.InFlight != 0 {
-			continue
+		if sn.InFlight != 0 || sn.Parked > 0 {
+			continue // a goroutine held half-way through an operation (between dequeue and credit, say): not a quiescent point
 		}
 		S := sn.Step
 		for i := range c.RPCs {
